@@ -939,6 +939,26 @@ def check_deepcopy(ctx, res: Result, dotted: str, rule="E-FRESHCOPY"):
                     src = shallow_of_self_table(n.value)
                     if src is not None and mutable_values(src):
                         shared.append((n, src))
+            # metadata tables hold user content of any depth: a per-record SHALLOW copy ({k: copy.copy(md) ...} / dict(md) /
+            # md.copy()) still shares whatever the records contain (lists, nested dicts)
+            for n in walk_no_nested(fi.node):
+                if isinstance(n, ast.Assign) and len(n.targets) == 1 and isinstance(n.targets[0], ast.Attribute) and isinstance(n.targets[0].value, ast.Name) and n.targets[0].value.id == obj and isinstance(n.value, ast.DictComp) and len(n.value.generators) == 1:
+                    g = n.value.generators[0]
+                    it = g.iter
+                    if isinstance(it, ast.Call) and isinstance(it.func, ast.Attribute) and it.func.attr == "items" and is_self_attr(it.func.value) and isinstance(g.target, ast.Tuple) and len(g.target.elts) == 2 and isinstance(g.target.elts[1], ast.Name):
+                        src = it.func.value.attr
+                        k_ = tables.get(src)
+                        is_meta = isinstance(k_, Dct) and isinstance(k_.val, Atom) and k_.val.name == "META"
+                        val = n.value.value
+                        vn = g.target.elts[1].id
+                        one_level = (isinstance(val, ast.Call) and norm(val.func) in ("copy.copy", "dict") and len(val.args) == 1 and isinstance(val.args[0], ast.Name) and val.args[0].id == vn) or (isinstance(val, ast.Call) and isinstance(val.func, ast.Attribute) and val.func.attr == "copy" and isinstance(val.func.value, ast.Name) and val.func.value.id == vn) or (isinstance(val, ast.Dict) and len(val.keys) == 1 and val.keys[0] is None)
+                        if is_meta and one_level:
+                            res.violation(rule, fi.short, norm(n)[:140], "deep:" + src + ":records", f"the records of {src} are copied one level deep: what a metadata record contains (lists, nested dicts) is shared between the copy and the original - copy.deepcopy is what makes the copy independent", loc(fi, n))
+                            shared.append((None, src))
+            shared_real = [(n, src) for n, src in shared if n is not None]
+            if shared and not shared_real:
+                continue
+            shared = shared_real
             for n, src in shared:
                 res.violation(rule, fi.short, norm(n), "deep:" + src, f"the copy receives a one-level copy of {src}, whose values are mutable (lists / metadata dicts): they are shared between the copy and the original, so an in-place update of one shows up in the other", loc(fi, n))
             if shared:
